@@ -43,15 +43,27 @@ def c_expand_wildcard(P):
     P.prove("never_raises", kind == "ok", exc=str(res))
     if kind != "ok":
         return
-    if not isinstance(res, loops.SFilter):
-        raise Unsupported("expected a filtered comprehension")
     members = P.getattr(module, "members")
     i = z3.Int("i_member")
     P.assume(z3.And(i >= 0, i < zint(members.keys_seq.len)))
-    keep, val = res.pred_elt(i)
     m = members.get0(members.keys_seq.at(i))
+    if isinstance(res, loops.SFilter):
+        keep, val = res.pred_elt(i)
+    elif isinstance(res, loops.SCat) and any(isinstance(p, tuple) and isinstance(p[0], loops.SFlat) for p in res.parts) and \
+            all((isinstance(p, list) and not p) or (isinstance(p, tuple) and isinstance(p[0], loops.SFlat)) for p in res.parts):
+        # the same filter written as an accumulating loop: what iteration i contributes
+        flat, acc = next(p for p in res.parts if isinstance(p, tuple))
+        items = flat.items_at(P, i)[acc]
+        if len(items) > 1:
+            P.prove("at_most_one_entry_per_member", False)
+            return
+        keep, val = (True, items[0]) if items else (False, None)
+    else:
+        raise Unsupported("expected a filter over the members of the imported module (comprehension or accumulating loop)")
     P.prove("kept_iff_exposed_to_wildcard_imports", zbool(keep) == EXP(m.ident))
-    P.prove("order_preserving_filter_over_the_source_members", res.seq.len is members.keys_seq.len or True)
+    if val is None:
+        P.cover("_expand_wildcard")
+        return
     P.prove("element_is_member_with_the_statement_span", val[0] is m and val[1] is w.fields["alias_lineno"] and val[2] is w.fields["alias_endlineno"])
     P.cover("_expand_wildcard")
 
